@@ -121,7 +121,6 @@ func genObject(t *rapid.T, seed uint64, idx int, c config) (*fsobj.Obj, string) 
 }
 
 type machine struct {
-	rec   *ev.Recorder
 	cfg   config
 	dir   string
 	tree  *fstree.FSTree
@@ -143,6 +142,7 @@ type machine struct {
 	sawCompressedRead bool
 	reopened          bool
 	hdrBuf            []byte
+	cls               map[string]bool
 }
 
 func (m *machine) open(t *rapid.T, ro bool, withDepth bool) {
@@ -248,6 +248,9 @@ func (m *machine) checkAddr(t *rapid.T, i int, apis int) {
 		}
 	}
 	if apis&apiStream != 0 {
+		if want {
+			m.classLabels(i)
+		}
 		h, rd, err := m.tree.GetStream(o.Addr)
 		if want {
 			if err != nil {
@@ -258,16 +261,13 @@ func (m *machine) checkAddr(t *rapid.T, i int, apis int) {
 			}
 			pl, rerr := io.ReadAll(rd)
 			_ = rd.Close()
-			if m.foreignTail(i, pl, o.Object.Payload(), rerr) {
-				pl, rerr = o.Object.Payload(), nil
-			}
 			if rerr != nil {
 				m.fail(t, "GetStream(#%d): reading payload: %v", i, rerr)
 			}
 			if b := h.Marshal(); !bytes.Equal(b, o.Header) {
 				m.fail(t, "GetStream(#%d) header differs (first diff at %d)", i, firstDiff(b, o.Header))
 			}
-			if !bytes.Equal(pl, o.Object.Payload()) && !m.tolerated(m.earlyEOFGetStream(o), pl, o.Object.Payload()) {
+			if !bytes.Equal(pl, o.Object.Payload()) {
 				m.fail(t, "GetStream(#%d) payload: %d bytes, stored %d (first diff at %d)", i, len(pl), len(o.Object.Payload()), firstDiff(pl, o.Object.Payload()))
 			}
 		} else {
@@ -287,14 +287,11 @@ func (m *machine) checkAddr(t *rapid.T, i int, apis int) {
 			}
 			rest, rerr := io.ReadAll(rd)
 			_ = rd.Close()
-			if n <= len(o.Plain) && m.foreignTail(i, rest, o.Plain[n:], rerr) {
-				rest, rerr = o.Plain[n:], nil
-			}
 			if rerr != nil {
 				m.fail(t, "ReadObject(#%d): reading rest: %v", i, rerr)
 			}
 			all := append(append([]byte(nil), m.hdrBuf[:n]...), rest...)
-			if !bytes.Equal(all, o.Plain) && !m.tolerated(m.earlyEOFReadObject(o), all, o.Plain) {
+			if !bytes.Equal(all, o.Plain) {
 				m.fail(t, "ReadObject(#%d): buffered %d + streamed %d bytes differ from the %d stored bytes (first diff at %d)", i, n, len(rest), len(o.Plain), firstDiff(all, o.Plain))
 			}
 			if n < o.HdrEnd {
@@ -337,64 +334,26 @@ func (m *machine) checkAddr(t *rapid.T, i int, apis int) {
 	}
 }
 
-// fpEarlyEOF: prefixedReadSeekCloser.Read (fstree/util.go) calls rest.Read with an empty slice whenever a read
-// ends inside the buffered prefix and returns that call's error; nopReadCloser and an exhausted zstd decoder answer
-// io.EOF to an empty read, so the stream ends after the first chunk although prefix bytes remain (data loss for the
-// reader). Reachable for legacy zstd-compressed files only:
-//   - ReadObject/ReadObjectParts: file shorter than the 20 KiB header buffer, decompressed form longer than the
-//     caller's 40 KiB buffer (tail = prefix over nopReadCloser);
-//   - GetStream: file of >= 20 KiB whose decompressed form fits the first 20 KiB decoder read (payload prefix
-//     over an exhausted decoder).
-//
-// Honoured only while listed open in known_findings.json; then the truncated-stream outcome of exactly these two
-// classes is counted and tolerated, everything else is still compared.
-const fpEarlyEOF = "C10:prefixed-stream-early-eof"
-
-func (m *machine) earlyEOFReadObject(o *fsobj.Obj) bool {
-	return o.Spec.Compress && len(o.Stored) < fsobj.HeaderBufferLen && len(o.Plain) > len(m.hdrBuf)
-}
-
-func (m *machine) earlyEOFGetStream(o *fsobj.Obj) bool {
-	return o.Spec.Compress && len(o.Stored) >= fsobj.HeaderBufferLen && len(o.Plain) <= fsobj.HeaderBufferLen
-}
-
-// fpForeignTail: fstree.readHeader (head.go) wraps the file in a limitedFileReader only when the member is LONGER
-// than the 20 KiB it buffered ("l > buffered"). A combined-file member of exactly 20480 stored bytes is fully
-// buffered, yet the unlimited *os.File is returned as the rest stream (and preprocessStreamHead keeps it because
-// len(initial) is not < 20480), so GetStream / ReadObject continue into the following members' bytes: the reader
-// gets the object followed by foreign bytes (or a zstd error for a compressed member).
-// Honoured only while listed open; then exactly this class (stored length == 20480, physically in a combined file,
-// returned stream = expected bytes + extra tail or a read error after them) is counted and tolerated.
-const fpForeignTail = "C10:combined-member-of-exactly-20KiB-streams-foreign-tail"
-
-func (m *machine) foreignTail(i int, got, want []byte, rerr error) bool {
+// Input classes behind the two defects this check found (fixed in /repo 5c07b66 and 04d469c, see
+// known_findings.json): they are labelled so that the evidence shows the generator keeps reaching them.
+//   - streamed read (GetStream/ReadObject) of a combined-file member of exactly 20480 stored bytes: the rest
+//     stream used to run on into the following members (foreign bytes);
+//   - legacy zstd file < 20 KiB whose object is > 40 KiB (ReadObject tail over nopReadCloser) and zstd file
+//     >= 20 KiB whose object is <= 20 KiB (GetStream payload prefix over an exhausted decoder): the stream
+//     used to end after the first read chunk.
+func (m *machine) classLabels(i int) {
 	o := m.objs[i]
-	if len(o.Stored) != fsobj.HeaderBufferLen {
-		return false
+	if len(o.Stored) == fsobj.HeaderBufferLen {
+		if _, nl, ok := fsobj.Inode(m.path(i)); ok && nl > 1 {
+			m.cls["stream-read-of-combined-member-of-exactly-20KiB"] = true
+		}
 	}
-	if rerr == nil && (len(got) <= len(want) || !bytes.HasPrefix(got, want)) {
-		return false
+	if o.Spec.Compress && len(o.Stored) < fsobj.HeaderBufferLen && len(o.Plain) > len(m.hdrBuf) {
+		m.cls["stream-read-zstd-file-lt-20KiB-object-gt-40KiB"] = true
 	}
-	if _, _, combined, _ := fsobj.Layout(m.path(i)); !combined {
-		return false
+	if o.Spec.Compress && len(o.Stored) >= fsobj.HeaderBufferLen && len(o.Plain) <= fsobj.HeaderBufferLen {
+		m.cls["stream-read-zstd-file-ge-20KiB-object-le-20KiB"] = true
 	}
-	if !m.rec.Known(fpForeignTail) {
-		return false
-	}
-	m.rec.Excluded(1)
-	return true
-}
-
-// tolerated reports whether got is a truncation of want that falls into the known-finding class.
-func (m *machine) tolerated(inClass bool, got, want []byte) bool {
-	if !inClass || len(got) >= len(want) || !bytes.HasPrefix(want, got) {
-		return false
-	}
-	if !m.rec.Known(fpEarlyEOF) {
-		return false
-	}
-	m.rec.Excluded(1)
-	return true
 }
 
 func firstDiff(a, b []byte) int {
@@ -673,9 +632,9 @@ func TestC10Model(t *testing.T) {
 	rapid.Check(t, func(t *rapid.T) {
 		cfg := genConfig(t)
 		seed := rapid.Uint64().Draw(t, "seed")
-		m := &machine{rec: rec, cfg: cfg, in: map[int]bool{}, byAdr: map[oid.Address]int{},
+		m := &machine{cfg: cfg, in: map[int]bool{}, byAdr: map[oid.Address]int{},
 			single: map[int]bool{}, batched: map[int]bool{}, siblingOfDeleted: map[int]bool{},
-			hdrBuf: make([]byte, 2*fsobj.HeaderBufferLen)}
+			hdrBuf: make([]byte, 2*fsobj.HeaderBufferLen), cls: map[string]bool{}}
 		classes := map[string]int{}
 		for i := 0; i < universe; i++ {
 			o, class := genObject(t, seed, i, cfg)
@@ -712,6 +671,9 @@ func TestC10Model(t *testing.T) {
 				if v {
 					labels = append(labels, k)
 				}
+			}
+			for k := range m.cls {
+				labels = append(labels, k)
 			}
 			rec.Case(nontrivial, cfg.String()+"|"+strings.Join(m.ops, ";"), labels...)
 			if rec.WantSample() && nontrivial {
